@@ -11,5 +11,5 @@ Extraction "../build/ocaml/model.ml"
   g_cmp g_vctor g_constraints_from_string g_constraints_to_string g_from_string g_constraint_from_string
   xs_find xs_valid xs_ctor xs_pair xs_names x_sv_next x_sv_stable
   g_github g_snyk g_gitlab x_split_req x_native_tables x_github_table x_snyk_table
-  x_gem_helpers x_refcmp z_nmatch z_to_constraints x_native_caret x_native_same_minor x_native_same_major x_native_nginx_plus
+  x_gem_helpers x_maven_native x_relations x_nginx_native x_openssl_native x_refcmp z_nmatch z_to_constraints x_native_caret x_native_same_minor x_native_same_major x_native_nginx_plus
   x_split_constraint x_py_is_ascii x_remove_spaces x_lower x_split_c x_strip_set x_lstrip_set x_partition_c.
